@@ -19,3 +19,10 @@ def check(A):
         R.api_rules(A, fl, 'C03')
         R.response_rules(A, fl, 'C03', parts=('reap',))
     R.isolation_rules(A, 'C03')
+    # binary messages leave on the channel kind of the transport that carries them (C01 cache)
+    from . import C01
+    import copy
+    msg = A.model.const_value(A.model.module('packet'), 'MESSAGE')
+    sub = copy.copy(A)
+    sub.obligations = []
+    C01.encode_cases(A, C01.constructor_cases(sub, msg), prefix='C03')
